@@ -51,6 +51,13 @@ st("C16", "exploration", "deterministic simulation: exact byte accounting on the
 st("C18", "exploration", "deterministic simulation: post-run analysis of recorded sink contents with independent parsers under one-huge vs many-small write histories (MT unit sizes and counts are checked in lzsim-mt C08)",
    "XZ index records and LZIP trailers must not exceed max(block/member size, dict) and must sum to the input; .lzma expected size: write beyond it fails, finish short of it fails, header carries the bytes written.")
 
+st("C03", "exploration", "deterministic simulation with liblzma (static C library) as the second party on a chunked byte pipe; inputs x options by seeded generation",
+   "ours->liblzma: .lzma (header), raw LZMA1 with end marker, raw LZMA2, .xz (all checks, block sizes, pre-filters) and .lz written under random histories are fed in random chunkings to lzma_alone_decoder / raw decoders / stream decoder / lzip decoder: StreamEnd, identical bytes, no input left. liblzma->ours: easy presets 0-9(+extreme), stream encoder with custom lc/lp/pb/dict/nice/mf/mode/depth, filter chains, FullFlush block boundaries, alone encoder, raw LZMA2/LZMA1, and LZIP members wrapped by the harness around liblzma's raw LZMA1; our readers use random buffer sizes and benign short/Interrupted sources.",
+   "liblzma is trusted as the reference. Restrictions that are liblzma's own: lc+lp<=4 for LZMA1, .lzma header dictionary sizes 2^n / 2^n+2^(n-1) only, no preset dictionaries through the bindings, raw LZMA1 needs the end marker.")
+st("C11", "exploration", "deterministic simulation: filter readers over SimSource with short/Interrupted reads and random buffer sizes (state across the 4096-byte refill), BCJ2 over four sources with independent schedules; liblzma and a harness BCJ2 encoder as references",
+   "filter.inverse: BCJReader(BCJWriter(x)) == x and DeltaReader(DeltaWriter(x)) == x for 8 architectures, aligned start offsets incl. near 2^31/2^32, distances 1..256, inputs random / real executables / synthetic branch-dense code / lengths around 0, 4096, 8192. filter.ref: filtered bytes equal liblzma's filter output (LZMA2 as lossless carrier) and our reader decodes liblzma's filtered bytes. bcj2.roundtrip: a harness encoder (7-Zip Bcj2 format, conversion decisions drawn from the PRNG) produces four streams, BCJ2Reader over four SimSources with independent short/Interrupted schedules must return x.",
+   "The harness BCJ2 encoder is trusted (written from the 7-Zip format; validated only by the round trip). liblzma trusted as filter reference.")
+
 NOT_YET = {}
 for i in range(1, 20):
     pid = f"C{i:02d}"
